@@ -176,6 +176,27 @@ def header_stores(fnode, modtree=None):
                     if isinstance(d, ast.Assign) and
                     norm(d.targets[0]) == tg.slice.id and
                     d.lineno < s.lineno]
+            # ... or the key is the variable of a loop over literal keys
+            loops = [l for l in walk_no_nested(fnode)
+                     if isinstance(l, ast.For) and
+                     norm(l.target) == tg.slice.id and
+                     any(x is s for x in ast.walk(l))]
+            if loops and not defs:
+                import copy as _copy
+                for k in [a.value for a in ast.walk(loops[-1].iter)
+                          if isinstance(a, ast.Constant) and
+                          isinstance(a.value, str)]:
+                    # the statement as it runs for this key
+                    class _K(ast.NodeTransformer):
+                        def visit_Name(self, nd, k=k, v=tg.slice.id):
+                            if nd.id == v and isinstance(nd.ctx, ast.Load):
+                                return ast.copy_location(
+                                    ast.Constant(value=k), nd)
+                            return nd
+                    sp_ = _K().visit(_copy.deepcopy(s))
+                    sp_._orig = s
+                    out.setdefault(k, []).append(sp_)
+                continue
             if not defs:
                 continue
             d = max(defs, key=lambda x: x.lineno)
@@ -306,12 +327,12 @@ def run(ctx):
     for fam in (("CDELT1", "CD1_1"), ("CDELT2", "CD2_2")):
         for key in fam:
             a, b = cs.get(key, []), es.get(key, [])
-            ok = len(a) == 1 and len(b) == 1 and \
-                isinstance(a[0], ast.AugAssign) and \
-                isinstance(b[0], ast.AugAssign) and \
-                isinstance(a[0].op, ast.Mult) and \
-                isinstance(b[0].op, ast.Div) and \
-                norm(a[0].value) == "factor" and norm(b[0].value) == "factor"
+            from ..core import as_update
+            ua = as_update(a[0]) if len(a) == 1 else None
+            ub = as_update(b[0]) if len(b) == 1 else None
+            ok = ua is not None and ub is not None and \
+                ua[1] is ast.Mult and ub[1] is ast.Div and \
+                ua[2] == "factor" and ub[2] == "factor"
             ctx.check("C15-R2", exp, "%s scaled *factor then /factor" % key,
                       ok, "%s: compress %s, expand %s" %
                       (key, [norm(x) for x in a], [norm(x) for x in b]),
@@ -385,7 +406,11 @@ def run(ctx):
                 fn = norm(node.func)
                 if fn in ("np.arange", "numpy.arange") and \
                         len(node.args) == 1:
-                    if norm(node.args[0]) != "data.shape[%d]" % axis:
+                    a0 = node.args[0]
+                    if isinstance(a0, ast.Name):
+                        from .c08 import _resolve_local
+                        a0 = _resolve_local(exp.node, a0)
+                    if norm(a0) != "data.shape[%d]" % axis:
                         raise sym.Untranslatable("arange over %s" %
                                                  norm(node.args[0]))
                     return k
